@@ -653,7 +653,7 @@ def image_is_ooo(img):
     return len(img) >= 8 and (img[7] & 3) == 2 and (img[5] & 16) != 0
 
 
-def exercise(rng, ops, g, t, maybe_ooo):
+def exercise(rng, ops, g, t, maybe_ooo, min_updates=0):
     """what is done with a value returned as Ok: query (estimate and bounds -- compared with the model unless the
     sketch may be out of order, where only the crate-only op 32 is used), re-serialize, merge into a union, update,
     round trip.  maybe_ooo: this image or an earlier one loaded into the same slot (a rejected image leaves the
@@ -664,7 +664,7 @@ def exercise(rng, ops, g, t, maybe_ooo):
         ops.append((32, [g, t]))
     query()
     ops.append((7, [g, t])); ops.append((31, [g, t])); ops.append((30, [g, t]))
-    for _ in range(rng.choice([0, 3, 40])):
+    for _ in range(max(min_updates, rng.choice([0, 3, 40]))):
         ops.append((2, [g, cp(rng.getrandbits(26), rand_value(rng))]))
     ops.append((3, [g, t])); query(); ops.append((30, [g, t]))
     ops.append((8, [g, t])); ops.append((3, [g, t])); query(); ops.append((31, [g, t]))
@@ -675,14 +675,17 @@ def gen_foreign_case(rng, cid, tier):
     tags = set()
     ooo = {}
     for _ in range(rng.choice([1, 2, 3])):
-        img, v = foreign_image(rng, tier)
+        if rng.random() < 0.12:
+            img, v = set_load_image(rng, "max"), "set-updatable-maxload"
+        else:
+            img, v = foreign_image(rng, tier)
         tags.add(v)
         g, t = rng.randrange(2), rng.randrange(3)
         ooo[(g, t)] = ooo.get((g, t), False) or image_is_ooo(img)
         ops.append((9, [g, t] + img))
         ops.append((3, [g, t]))
         if "upd4aux" not in v:
-            exercise(rng, ops, g, t, ooo[(g, t)])
+            exercise(rng, ops, g, t, ooo[(g, t)], min_updates=(12 if "maxload" in v else 0))
     tag = "hllforeign-upd4aux" if "upd4aux" in tags else "hllforeign-" + "+".join(sorted(tags))
     return Case(cid, [rng.randint(4, 12)], ops, tag=tag)
 
@@ -797,6 +800,22 @@ def crafted_coupon_image(rng):
     return [3, 1, 7, lgk, lg_arr, 8 if compact else 0, 0, 1 | (typ << 2)] + le(4, count) + u32l(body)
 
 
+def set_load_image(rng, load):
+    """an UPDATABLE set image (the whole table of 1 << lg_arr ints, Java's probe layout) holding `load` distinct valid
+    coupons: load = 3/4 size is the largest valid table; 3/4 size + 1, size - 1 and size (no empty slot: the next novel
+    coupon would find the table full -- unreachable!("HashSet full")) must be refused"""
+    lg_arr = rng.choice([5, 6, 7])
+    size = 1 << lg_arr
+    lgk = rng.choice([lg_arr + 3, lg_arr + 3, 10, 12, 21])
+    n = {"max": 3 * size // 4, "over": 3 * size // 4 + 1, "almost": size - 1, "full": size}[load]
+    cs = set()
+    while len(cs) < n:
+        cs.add(cp(rng.getrandbits(26), rand_value(rng)))
+    cs = list(cs)
+    typ = rng.randrange(3)
+    return [3, 1, 7, lgk, lg_arr, 0, 0, 1 | (typ << 2)] + le(4, n) + u32l(java_set_table(lg_arr, cs))
+
+
 def gen_malformed_case(rng, cid, tier):
     ops = []
     tags = set()
@@ -807,6 +826,8 @@ def gen_malformed_case(rng, cid, tier):
             img = crafted_estimator_image(rng); tags.add("est")
         elif r < 0.35:
             img = crafted_coupon_image(rng); tags.add("cpn")
+        elif r < 0.45:
+            img = set_load_image(rng, rng.choice(["max", "over", "almost", "full", "full"])); tags.add("setload")
         else:
             img, v = foreign_image(rng, tier)
             if len(img) > 3000 and rng.random() < 0.7:
@@ -816,7 +837,7 @@ def gen_malformed_case(rng, cid, tier):
         ooo[(g, t)] = ooo.get((g, t), False) or image_is_ooo(img)
         ops.append((9, [g, t] + img))
         ops.append((3, [g, t]))
-        exercise(rng, ops, g, t, ooo[(g, t)])
+        exercise(rng, ops, g, t, ooo[(g, t)], min_updates=12)
     return Case(cid, [rng.randint(4, 12)], ops, tag="hllmalformed" + "".join("-" + x for x in sorted(tags)))
 
 
